@@ -424,6 +424,63 @@ static void cmd_pb(int nt, char **t)
 }
 
 
+/* PBGIANT: one print buffer taken to the edge of what an int can count (2 GiB of real memory): the overflow guards of the growth arithmetic, the refusal of requests whose
+ * result would pass INT_MAX, and "unchanged after a refusal", with small arguments on a giant buffer (the random histories do the converse).  Self-checking: -> = ok <steps> | = BAD <what> | = nomem */
+static int pbg_state(struct printbuf *pb, long want_bpos, int terminated, const char *step)
+{
+	long blk = (long)vf_block_size(pb->buf);
+	if (pb->bpos != want_bpos) { ob_printf(&out, "= BAD %s: bpos %d, expected %ld", step, pb->bpos, want_bpos); return 0; }
+	if (pb->bpos > pb->size || (long)pb->size > blk) { ob_printf(&out, "= BAD %s: bpos %d size %d real block %ld", step, pb->bpos, pb->size, blk); return 0; }
+	if (terminated && (pb->bpos >= pb->size || pb->buf[pb->bpos] != 0)) { ob_printf(&out, "= BAD %s: not terminated inside the allocation (bpos %d size %d)", step, pb->bpos, pb->size); return 0; }
+	return 1;
+}
+static void cmd_pbgiant(int nt, char **t)
+{
+	struct printbuf *pb = printbuf_new(); const int G = (1 << 30) + 1; int r, e; long b; char src[128]; unsigned long before; (void)nt; (void)t;
+	memset(src, 'x', sizeof src); src[127] = 0;
+	if (!pb) { ob_puts(&out, "= nomem"); return; }
+	errno = 0; r = printbuf_memset(pb, 0, 'A', G);
+	if (r != 0) { ob_puts(&out, errno == ENOMEM || errno == 0 ? "= nomem" : "= BAD step1: a 1 GiB fill was refused"); printbuf_free(pb); return; }
+	if (!pbg_state(pb, G, 0, "step1")) goto done;
+	vf_progress++;
+	r = printbuf_memappend(pb, "xyz", 3);     /* growth from a capacity beyond INT_MAX/2: doubling it would overflow */
+	if (r < 0) { ob_puts(&out, errno == ENOMEM ? "= nomem" : "= BAD step2: appending 3 bytes to a 1 GiB buffer was refused"); goto done; }
+	if (!pbg_state(pb, (long)G + 3, 1, "step2")) goto done;
+	if (pb->buf[0] != 'A' || pb->buf[G - 1] != 'A' || memcmp(pb->buf + G, "xyz", 3)) { ob_puts(&out, "= BAD step2: contents"); goto done; }
+	b = (long)INT_MAX - 164;
+	errno = 0; r = printbuf_memset(pb, -1, 'B', (int)(b - pb->bpos));
+	if (r != 0) { ob_puts(&out, errno == ENOMEM || errno == 0 ? "= nomem" : "= BAD step3: a fill ending 164 bytes below INT_MAX was refused"); goto done; }
+	if (!pbg_state(pb, b, 0, "step3")) goto done;
+	vf_progress++;
+	r = printbuf_memappend(pb, src, 100);      /* result INT_MAX-63: fits */
+	if (r < 0) { ob_puts(&out, errno == ENOMEM ? "= nomem" : "= BAD step4: an append whose result (INT_MAX-63 bytes with the terminator) fits an int was refused"); goto done; }
+	b += 100;
+	if (!pbg_state(pb, b, 1, "step4")) goto done;
+	if (pb->buf[G + 3] != 'B' || pb->buf[b - 101] != 'B' || pb->buf[b - 100] != 'x' || pb->buf[b - 1] != 'x') { ob_puts(&out, "= BAD step4: contents"); goto done; }
+	/* from here on every request would take the buffer past INT_MAX: each must be refused with the buffer exactly as it was */
+	before = crc32_buf((unsigned char *)pb->buf + b - 4096, 4096);
+	errno = 0; r = printbuf_memappend(pb, src, 100); e = errno;
+	if (r >= 0) { ob_printf(&out, "= BAD step5: append of 100 bytes at bpos INT_MAX-64 returned %d", r); goto done; }
+	if (e != EFBIG) { ob_printf(&out, "= BAD step5: refused with errno %d (expected EFBIG)", e); goto done; }
+	if (!pbg_state(pb, b, 1, "step5")) goto done;
+	errno = 0; r = sprintbuf(pb, "%s", src);
+	if (r >= 0) { ob_printf(&out, "= BAD step6: sprintbuf of 127 bytes at bpos INT_MAX-64 returned %d", r); goto done; }
+	if (!pbg_state(pb, b, 1, "step6")) goto done;
+	errno = 0; r = printbuf_memset(pb, -1, 'C', 100);
+	if (r >= 0) { ob_printf(&out, "= BAD step7: fill of 100 bytes at bpos INT_MAX-64 returned %d", r); goto done; }
+	if (!pbg_state(pb, b, 1, "step7")) goto done;
+	errno = 0; r = printbuf_memset(pb, (int)(b - 10), 'C', 100);
+	if (r >= 0) { ob_printf(&out, "= BAD step8: fill of 100 bytes at offset INT_MAX-74 returned %d", r); goto done; }
+	if (!pbg_state(pb, b, 1, "step8")) goto done;
+	if (crc32_buf((unsigned char *)pb->buf + b - 4096, 4096) != before || pb->buf[0] != 'A') { ob_puts(&out, "= BAD refused requests changed the contents"); goto done; }
+	/* a small append that still fits (result INT_MAX-13): success or -- if the implementation wants slack it cannot have -- a clean refusal */
+	r = printbuf_memappend(pb, src, 50);
+	if (!pbg_state(pb, r < 0 ? b : b + 50, 1, "step9")) goto done;
+	ob_printf(&out, "= ok steps=9 last_append=%d size=%d", r, pb->size);
+done:
+	printbuf_free(pb);
+}
+
 /* ---------------- object model (C05, C06, C07, C09, C11) ----------------
  * Nodes may carry a uid: json_object_set_userdata(node, (void*)uid, del_cb); the delete callback appends the uid to
  * the destruction log, which every mutating command prints as del=<uid,...>.  Handles are plain pointers; the SCRIPT
@@ -1246,6 +1303,7 @@ static void dispatch(int nt, char **t)
 	else if (!strcmp(c, "SCRAMBLE")) cmd_scramble(nt, t);
 	else if (!strcmp(c, "ORESIZE")) cmd_oresize(nt, t);
 	else if (!strcmp(c, "PB")) cmd_pb(nt, t);
+	else if (!strcmp(c, "PBGIANT")) cmd_pbgiant(nt, t);
 	else if (!strcmp(c, "NUM")) cmd_num(nt, t);
 	else if (!strcmp(c, "SET")) cmd_set(nt, t);
 	else if (!strcmp(c, "INC")) cmd_inc(nt, t);
